@@ -43,6 +43,8 @@ CONSTANTS NC,          \* callers 2..3
           RdVar,       \* "state" | "ctor"
           InputMode,   \* "own" | "sharedcap"
           HistMode,    \* "copy" | "adopt"
+          HistAlloc,   \* "perrun" | "once": the history array of a run is made by the state generator of the run (react.go:186-188), or
+                       \* allocated once in NewAgent and handed to every run at length 0 (seeded defect: overlapping runs share it)
           ToolsVar     \* "percall" | "node": where the tool set of a caller that passes WithToolList lives (tool_node.go:277-285);
                        \* "node" = the seeded defect "the per-call tool list is saved on the ToolsNode"; callers with an even number pass one
 
@@ -63,7 +65,7 @@ Blank == [i \in 1..Cap |-> Null]
 VARIABLES cs, pc, heap, obj, inp, out, res, msg, S, cerr, crdid, nodealt, touched, active, overlap, raced
 vars == <<cs, pc, heap, obj, inp, out, res, msg, S, cerr, crdid, nodealt, touched, active, overlap, raced>>
 
-NewObj(a) == [arr |-> a, len |-> 0, rdid |-> ""]
+NewObj(a) == [arr |-> (IF HistAlloc = "once" THEN NC + 1 ELSE a), len |-> 0, rdid |-> ""]
 C(k) == CaseOf(k, cs[k])
 Init == /\ cs \in [Callers -> Scripts]
         /\ pc = [k \in Callers |-> "idle"]
@@ -90,7 +92,7 @@ Begin(k) ==
   /\ active' = active \cup {k}
   /\ overlap' = overlap \cup {{k, j} : j \in active}
   /\ obj' = IF StateMode = "percall" THEN [obj EXCEPT ![k] = NewObj(k)] ELSE obj
-  /\ heap' = [heap EXCEPT ![k] = Blank, ![InArr(k)] = IF InputMode = "own" THEN [Blank EXCEPT ![1] = UserR(C(k))] ELSE @]
+  /\ heap' = [heap EXCEPT ![k] = (IF HistAlloc = "once" THEN @ ELSE Blank), ![InArr(k)] = IF InputMode = "own" THEN [Blank EXCEPT ![1] = UserR(C(k))] ELSE @]
   /\ inp' = [inp EXCEPT ![k] = <<>>]        \* first round: the input is the caller's slice (InArr(k), len 1)
   /\ S' = [S EXCEPT ![k] = Apply(Apply(Idle, C(k)), [ev |-> "call", mode |-> "generate"])]
   /\ UNCHANGED <<cs, out, res, msg, cerr, crdid, nodealt, touched, raced>>
